@@ -23,6 +23,25 @@ CHECKS = {
         design='4/C08', engine='sa.sx + sa.match'),
 }
 
+CHECKS['C05'] = dict(
+    technique='exhaustive unit-table comparison against an independent SI grammar over Q[pi]; symbolic evaluation '
+              '(gated value numbering) of all 13 to() implementations and of the 6 comparison dunders for every ordered '
+              'pair of kinds; unit-factor survival test for unit-blindness',
+    text='Decides conversion and comparison semantics from the source for every unit and every real value: all 66 '
+         'factors equal the SI definitions exactly; every to() path preserves the SI magnitude, labels the target '
+         'unit, copy == in-place; each comparison dunder is the specified predicate of the SI difference and rejects '
+         'foreign kinds; a unit factor surviving in the predicate (unit-dependent verdict) is reported. Rounding not decided.',
+    design='4/C05', engine='sa.units + sa.sx')
+CHECKS['C06'] = dict(
+    technique='static operator-dispatch model (MRO, reflected-first rule) over all 780 (kind, op, kind|number) triples; '
+              'operator bodies evaluated with symbolic SI magnitudes and symbolic units; canonical-term equality '
+              'SI(result) == S op O and dimensional-analysis oracle for the result kind',
+    text='Exhaustive over operand kinds and symbolic (hence all) unit choices and magnitudes over the reals: every '
+         'non-raising path of every operator returns the dimensionally dictated kind and an SI magnitude canonically '
+         'equal to the operation on the operands\' SI magnitudes, which implies (a+b)-b = a and a-b = -(b-a). '
+         'Floating-point rounding is not decided.',
+    design='4/C06', engine='sa.sx + sa.spec.si')
+
 NOT_APPLICABLE = {
     'C04': 'limit statement (error = O(dt) as dt -> 0) against an analytic oracle; no sound static argument in reach '
            'bounds a global discretisation error. Its code-shape ingredients (consistent first-order integrator, torque '
